@@ -126,6 +126,13 @@ def fstring_shapes():
         "dict": lambda: ast.Dict(keys=[ast.Constant(value="k")], values=[X()]),
         "set": lambda: ast.Set(elts=[X()]),
         "dictcomp": lambda: ast.DictComp(key=X("a"), value=X("b"), generators=astcat.gens()),
+        # expressions whose TEXT starts with a brace without being a display themselves
+        "dict_subscript": lambda: ast.Subscript(value=ast.Dict(keys=[ast.Constant(value=1)], values=[X()]), slice=X("k"), ctx=ast.Load()),
+        "set_binop": lambda: ast.BinOp(left=ast.Set(elts=[X()]), op=ast.BitOr(), right=X("y")),
+        "dictcomp_method": lambda: ast.Call(func=ast.Attribute(value=ast.DictComp(key=X("a"), value=X("b"), generators=astcat.gens()), attr="get", ctx=ast.Load()), args=[X()], keywords=[]),
+        "dict_ifexp": lambda: ast.IfExp(test=X("t"), body=ast.Subscript(value=ast.Dict(keys=[ast.Constant(value=0)], values=[X()]), slice=X("k"), ctx=ast.Load()), orelse=X("y")),
+        "set_compare": lambda: ast.Compare(left=ast.Set(elts=[X()]), ops=[ast.LtE()], comparators=[X("y")]),
+        "setcomp_attr": lambda: ast.Attribute(value=ast.SetComp(elt=X("a"), generators=astcat.gens()), attr="pop", ctx=ast.Load()),
         "lambda": lambda: ast.Lambda(args=astcat.A0(), body=X()),
         "walrus": lambda: ast.NamedExpr(target=ast.Name(id="w", ctx=ast.Store()), value=X()),
         "ifexp": lambda: ast.IfExp(test=X("t"), body=X(), orelse=X("y")),
